@@ -254,8 +254,19 @@ type vNode struct {
 }
 
 func vNewLogFile() (*os.File, string) {
-	f := vDummyFile()
-	return f, filepath.Dir(f.Name())
+	if vSymbolic() {
+		return vDummyFile(), "logdir"
+	}
+	// natively: a real log.bin in a fresh directory, as persistentLog.rename expects
+	dir, err := os.MkdirTemp(vNativeDir(), "log-")
+	if err != nil {
+		panic(err)
+	}
+	f, err := os.OpenFile(filepath.Join(dir, "log.bin"), os.O_RDWR|os.O_CREATE, 0o666)
+	if err != nil {
+		panic(err)
+	}
+	return f, dir
 }
 
 // vBuildLog builds a persistentLog with n entries after a placeholder (base, baseTerm).
@@ -566,3 +577,13 @@ func (f *vSnapFile) Discard() error {
 }
 
 func (f *vSnapFile) Metadata() SnapshotMetadata { return f.rec.meta }
+
+func (s *vSnapStore) visibleCount() int {
+	n := 0
+	for _, r := range s.recs {
+		if r.visible {
+			n++
+		}
+	}
+	return n
+}
